@@ -651,6 +651,35 @@ pub fn compiled_batch(seed: u64, n_hist: usize, n_fam: usize) -> Batch {
     let unit = |n: &str| Variant { name: n.into(), shape: Shape::Unit, transient: false, record: Record { fields: vec![], steps: vec![] } };
     specials.push(Arc::new(Decl { name: "DiscU".into(), body: DeclBody::Enum { sorted: false, steps: vec![], variants: vec![unit("Low"), unit("High"), unit("Critical"), unit("Boom")] } }));
     specials.push(Arc::new(Decl { name: "DiscS".into(), body: DeclBody::Enum { sorted: true, steps: vec![], variants: vec![unit("Pear"), unit("Apple"), unit("Quince")] } }));
+    // sorted constructors whose names order differently by code unit and by letter
+    specials.push(Arc::new(Decl {
+        name: "SortCase".into(),
+        body: DeclBody::Enum {
+            sorted: true,
+            steps: vec![],
+            variants: vec![
+                Variant { name: "Idle".into(), shape: Shape::Unit, transient: false, record: Record { fields: vec![], steps: vec![] } },
+                Variant { name: "IOError".into(), shape: Shape::Tuple, transient: false, record: Record { fields: vec![f("field0", Ty::Str)], steps: vec![] } },
+                Variant { name: "Aa".into(), shape: Shape::Struct, transient: false, record: Record { fields: vec![f("n", Ty::U16)], steps: vec![] } },
+                Variant { name: "AB".into(), shape: Shape::Unit, transient: false, record: Record { fields: vec![], steps: vec![] } },
+            ],
+        },
+    }));
+    // more constructors than one var-int byte can number
+    specials.push(Arc::new(Decl {
+        name: "Wide".into(),
+        body: DeclBody::Enum {
+            sorted: false,
+            steps: vec![],
+            variants: (0..131)
+                .map(|k| match k {
+                    5 | 127 | 128 | 130 => Variant { name: format!("C{k}"), shape: Shape::Tuple, transient: false, record: Record { fields: vec![f("field0", Ty::U8)], steps: vec![] } },
+                    129 => Variant { name: format!("C{k}"), shape: Shape::Struct, transient: false, record: Record { fields: vec![f("s", Ty::Str)], steps: vec![Step::Added { name: "s".into(), default: Val::str("") }] } },
+                    _ => Variant { name: format!("C{k}"), shape: Shape::Unit, transient: false, record: Record { fields: vec![], steps: vec![] } },
+                })
+                .collect(),
+        },
+    }));
     // two pairs of declarations with the SAME identifier in different modules and different histories (vgen puts the
     // `..Other` one into a module of its own and aliases it)
     specials.push(struct_decl("Twin", &Record { fields: vec![f("id", Ty::U32), f("name", Ty::Str)], steps: vec![Step::Added { name: "name".into(), default: Val::str("anon") }] }));
@@ -735,6 +764,23 @@ pub fn compiled_batch(seed: u64, n_hist: usize, n_fam: usize) -> Batch {
         let spec = draw(&hs, &mut r);
         let versions = build_history(&spec, &static_menu(false));
         tuple_histories.push(versions.iter().enumerate().map(|(v, rec)| variant_holder(&format!("S{t}V{v}"), rec, if rec.fields.is_empty() { Shape::Unit } else { Shape::Struct })).collect());
+    }
+    // variant histories that end without any field: the newest versions are unit variants whose attribute still tells
+    // the story, older versions have the fields
+    for t in 0..3u16 {
+        let spec = draw(&hs, &mut r);
+        let pickty = |k: usize| spec.init.get(k).map(|f| f.ty_sel).unwrap_or(t * 7 + k as u16);
+        let fld = |k: usize| InitField { ty_sel: pickty(k), transient: false };
+        // (sel 0 takes the first candidate: the last serialized field of chunk 0, else the oldest added field)
+        let st = |kind: StepKind, k: u16| StepSpec { kind, sel: 0, ty_sel: pickty(k as usize + 1), pos_sel: 0 };
+        let vanishing = match t {
+            0 => HistorySpec { init: vec![fld(0)], steps: vec![st(StepKind::Remove, 0)], seed: spec.seed },
+            1 => HistorySpec { init: vec![fld(0), fld(1)], steps: vec![st(StepKind::MakeOptional, 1), st(StepKind::Remove, 0), st(StepKind::Remove, 0)], seed: spec.seed },
+            _ => HistorySpec { init: vec![fld(0)], steps: vec![st(StepKind::Add, 0), st(StepKind::Remove, 1), st(StepKind::MakeOptional, 0), st(StepKind::Remove, 0)], seed: spec.seed },
+        };
+        let versions = build_history(&vanishing, &static_menu(false));
+        let n = tuple_histories.len();
+        tuple_histories.push(versions.iter().enumerate().map(|(v, rec)| variant_holder(&format!("S{n}V{v}"), rec, if rec.fields.is_empty() { Shape::Unit } else { Shape::Struct })).collect());
     }
     Batch { histories, dedup_histories, families, tuple_histories, specials }
 }
